@@ -64,7 +64,13 @@ def standard_run(prop, tier, seed, level, modules, pred, canaries=(), e_checks=(
     for f in e_checks:
         rep.add_e(f(tier))
     for f in b_checks:
-        rep.add_b(f(tier, seed))
+        try:
+            rep.add_b(f(tier, seed))
+        except Exception:
+            # a crash of a bounded seam is a checker error of that seam only (exit 3 unless an obligation is violated):
+            # the deductive part of the check has already run and is reported regardless
+            import traceback
+            rep.errors.append(("seam:" + getattr(f, "__name__", "?"), traceback.format_exc()[-1500:]))
     if not only:
         rep.canaries = run_canaries(list(canaries), modules)
     rep.notes.extend(notes)
